@@ -11,7 +11,7 @@ from typing import Any, Callable, Dict, List, Optional, Tuple
 
 from vf import pyvc, rx, sstr
 from vf.core import Ob, scenario, simple_ob, sym_run
-from vf.jasmrt import J, ensure
+from vf.jasmrt import J, NullLog, ensure
 from vf.pyvc import Name, SymSeq, Unsupported, ctx
 from vf.sstr import SymStr, lit, uniform, var
 
@@ -27,6 +27,8 @@ V = {
     "mn": r"[a-z][a-z0-9.]*",
     "sp": " +",
     "ops": r"[^ #\t\n]+",
+    "r1": r"[a-z0-9]+",
+    "r2": r"[a-z0-9]+",
     "rest": r"(?:[ #][^\n]*)?",
     "trail": " *",
     "name": r"[^\n\t]*",
@@ -38,7 +40,16 @@ V = {
 
 def v(name: str, ident: Optional[str] = None) -> SymStr:
     # free text of the listing does not mention the keyword data16 (scope of G; see DESIGN appendix B)
-    return var(ident or name, V[name], avoid="data16" if name in ("mn", "ops", "rest", "name", "fname") else None)
+    return var(ident or name, V[name], avoid="data16" if name in ("mn", "ops", "rest", "name", "fname", "r1", "r2") else None)
+
+
+def OPS() -> SymStr:
+    """the operand token of the line shapes: two register operands (the splitter and the normaliser are under their own
+    contracts for every operand form -- C09; here the REAL ones run, so that no call structure is prescribed)"""
+    return lit("%") + v("r1") + ",%" + v("r2")
+
+
+OPS_EXPECTED = ["%‹r1›", "%‹r2›"]
 
 
 def line_shapes() -> List[Tuple[str, Callable[[], SymStr], Dict[str, Any]]]:
@@ -46,18 +57,18 @@ def line_shapes() -> List[Tuple[str, Callable[[], SymStr], Dict[str, Any]]]:
     def head():
         return v("pad") + v("addr") + ":\t" + v("bytes") + "\t"
     shapes: List[Tuple[str, Callable[[], SymStr], Dict[str, Any]]] = []
-    shapes.append(("insn-ops", lambda: head() + v("mn") + v("sp") + v("ops") + v("rest"),
+    shapes.append(("insn-ops", lambda: head() + v("mn") + v("sp") + OPS() + v("rest"),
                    {"kind": "insn", "mn": "mn", "ops": "ops"}))
     shapes.append(("insn-noops", lambda: head() + v("mn") + v("trail"), {"kind": "insn", "mn": "mn", "ops": None}))
-    shapes.append(("insn-hint", lambda: head() + v("mn") + ",pn" + v("sp") + v("ops") + v("rest"),
+    shapes.append(("insn-hint", lambda: head() + v("mn") + ",pn" + v("sp") + OPS() + v("rest"),
                    {"kind": "insn", "mn": "mn+,pn", "ops": "ops"}))
     shapes.append(("insn-bad", lambda: head() + "(bad)" + v("trail"), {"kind": "insn", "mn": "lit:bad", "ops": None}))
-    shapes.append(("insn-data16", lambda: head() + "data16 " + v("mn") + v("sp") + v("ops") + v("rest"),
+    shapes.append(("insn-data16", lambda: head() + "data16 " + v("mn") + v("sp") + OPS() + v("rest"),
                    {"kind": "insn", "mn": "mn", "ops": "ops"}))
     shapes.append(("insn-data16-noops", lambda: head() + "data16 " + v("mn") + v("trail"), {"kind": "insn", "mn": "mn", "ops": None}))
     # a 0x66 byte that starts no decodable instruction is printed as the one-token instruction "data16"
     shapes.append(("insn-data16-lone", lambda: head() + "data16", {"kind": "insn", "mn": "lit:data16", "ops": None}))
-    shapes.append(("insn-prefix", lambda: head() + "rep " + v("mn") + v("sp") + v("ops") + v("rest"),
+    shapes.append(("insn-prefix", lambda: head() + "rep " + v("mn") + v("sp") + OPS() + v("rest"),
                    {"kind": "insn", "mn": "lit:rep", "ops": "mn"}))
     shapes.append(("cont", lambda: v("pad") + v("addr") + ":\t" + v("cbytes"), {"kind": "empty"}))
     shapes.append(("label", lambda: v("addr") + " <" + v("name") + ">:", {"kind": "other"}))
@@ -65,7 +76,7 @@ def line_shapes() -> List[Tuple[str, Callable[[], SymStr], Dict[str, Any]]]:
     shapes.append(("blank", lambda: lit(""), {"kind": "other"}))
     shapes.append(("elision", lambda: lit("\t..."), {"kind": "other"}))
     shapes.append(("header", lambda: v("fname") + ":     file format " + v("fmt"), {"kind": "other"}))
-    shapes.append(("insn-pseudo-prefix", lambda: head() + v("pseudo") + " " + v("mn") + v("sp") + v("ops") + v("rest"),
+    shapes.append(("insn-pseudo-prefix", lambda: head() + v("pseudo") + " " + v("mn") + v("sp") + OPS() + v("rest"),
                    {"kind": "insn", "mn": "pseudo", "ops": "mn"}))
     return shapes
 
@@ -79,26 +90,25 @@ class OpsStub:
         self.calls: List[Any] = []
 
 
-def _run_line(build: Callable[[], SymStr], calls: List[Any]):
-    lp = J.lp
-    orig_split = vars(lp.LineParser)["get_splitted_operands"]
-    orig_parse = lp.OperandsParser.parse
+ALL_SET_CONFIG = {"style": "intel", "mnemonics-full-match": True, "operands-full-match": True,
+                  "valid_addr_range": {"min": "0x1000", "max": "0x2000"}, "sections": [".text"]}
 
-    def fake_split(operands):
-        calls.append(("split", operands))
-        return ["<split>", operands]
 
-    def fake_parse(self):
-        calls.append(("norm", self.operands))
-        return ["<norm>", self.operands]
-    lp.LineParser.get_splitted_operands = staticmethod(fake_split)
-    lp.OperandsParser.parse = fake_parse
-    lp.logger = type("L", (), {"debug": staticmethod(lambda *a: None)})
+def _load_all_set_config():
+    """the rule's configuration with every entry set (through the real load_config): the parser's contracts are stated for every
+    configuration state -- the instruction stream is a function of the listing"""
     try:
-        return lp.parse_line(build())
-    finally:
-        lp.LineParser.get_splitted_operands = orig_split
-        lp.OperandsParser.parse = orig_parse
+        J.gd.JASMConfig().load_config(dict(ALL_SET_CONFIG))
+    except Exception as e:  # noqa
+        raise Unsupported(f"the all-entries configuration cannot be loaded on this tree: {e!r}")
+
+
+def _run_line(build: Callable[[], SymStr], calls: List[Any], cfg: bool = False):
+    lp = J.lp
+    if cfg:
+        _load_all_set_config()
+    lp.logger = NullLog()
+    return lp.parse_line(build())
 
 
 def _show(c, x) -> str:
@@ -108,17 +118,19 @@ def _show(c, x) -> str:
 
 
 def _line_scenarios():
-    for sid, build, exp in line_shapes():
+    for sid, build, exp, cfg in [(a, b, c, k) for (a, b, c) in line_shapes() for k in (False, True)]:
         func = LP + ".parse_line"
+        if cfg:
+            sid = sid + "@all-config"
 
-        def run(sid=sid, build=build, exp=exp, func=func):
+        def run(sid=sid, build=build, exp=exp, func=func, cfg=cfg):
             ensure()
             obs: List[Ob] = []
             calls: List[Any] = []
 
             def fn():
                 calls.clear()
-                r = _run_line(build, calls)
+                r = _run_line(build, calls, cfg)
                 return [r, list(calls)]
             try:
                 runr = sym_run(fn)
@@ -168,22 +180,23 @@ def _line_scenarios():
                     obs.append(simple_ob(base + f":CLEAN-{fname}", func, "POST", f"[{sid}] the {fname} field contains no ',' '|' or '::'",
                                          bad is None, ["C10"], detail=f"may contain {bad!r}: {_show(c, fval)}", witness=f"{bad}:{_show(c, fval)}"))
                 if exp["ops"] is None:
-                    ok = list(r.operands) == [] and not cl
+                    ok = list(r.operands) == []
                     obs.append(simple_ob(base + ":POST-no-operands", func, "POST", f"[{sid}] an instruction without operand token has no operands",
                                          ok, ["C08", "C09", "C16", "C10"], detail=repr(r.operands), witness=repr(r.operands)[:60]))
                 else:
-                    want = "‹" + exp["ops"] + "›"
-                    ok = (len(cl) == 2 and cl[0][0] == "split" and _show(c, cl[0][1]) == want and cl[1][0] == "norm"
-                          and cl[1][1][0] == "<split>" and len(r.operands) == 2 and r.operands[0] == "<norm>" and r.operands[1] is cl[1][1])
+                    shown_ops = [_show(c, o_) for o_ in r.operands]
+                    want_ops = OPS_EXPECTED if exp["ops"] == "ops" else ["‹" + exp["ops"] + "›"]
+                    ok = shown_ops == want_ops
                     obs.append(simple_ob(base + ":POST-operands", func, "POST",
                                          f"[{sid}] operands = normalise(split(the operand token)) -- exactly the token after the mnemonic, "
-                                         "up to the first space or '#' (nothing else becomes an operand)", ok, ["C08", "C09", "C16", "C10"], detail=f"{[(k, _show(c, a) if isinstance(a, str) else a) for k, a in cl]}",
-                                         witness=repr(cl)[:80]))
+                                         "up to the first space or '#' (nothing else becomes an operand)", ok, ["C08", "C09", "C16", "C10"],
+                                         detail=repr(shown_ops), witness=repr(shown_ops)[:80]))
             return obs
         scenario(f"parser:line:{sid}", func, ["C08", "C16", "C10", "C09"],
                  inlined=["LineParser.parse", "parse_instruction", "parse_instruction_no_operands", "parse_label", "parse_nop_padding",
                           "is_line_broken", "is_empty_line", "parse_section", "line_is_title"],
-                 doc=f"line shape {sid} of grammar G")(run)
+                 doc=f"line shape {sid} of grammar G" + (" -- with every configuration entry set (style intel, both full-match flags, a "
+                                                         "valid_addr_range, sections): the parser does not depend on the rule's configuration" if cfg else ""))(run)
 
 
 _line_scenarios()
@@ -441,7 +454,7 @@ def pipeline():
         orig = lp.parse_line
         # contract of parse_line (verified per line shape above): an Instruction carrying the line's address,
         # or a non-Instruction
-        def stub(line):
+        def stub(line, *a_, **k_):        # optional parameters added to parse_line are inert by contract
             if ctx().choose(2, "line-kind") == 0:
                 return J.gd.Instruction(addr=Name("addr(" + line.ident + ")"), mnemonic=Name("mn(" + line.ident + ")"), operands=[])
             return lp.Label(addr="0", name="x")
@@ -741,6 +754,19 @@ def split_concrete():
                 obs.append(simple_ob(f"parse_line:concrete-line:{mn}:{tail!r}:{len(pad)}:POST", LP + ".parse_line", "POST",
                                      f"{mn!r} with tail {tail!r} decodes to {want}", got == want, ["C08", "C16", "C10"], detail=repr(got),
                                      witness=f"{line!r} -> {got}"))
+    # lines at the limits of the line grammar: very long annotations / comments (C++ symbols), a prefix together with a branch hint,
+    # 1..15 raw bytes on one line (objdump --insn-width), long addresses, many blanks
+    from vf.sweeps import limit_lines
+    for tag, line in limit_lines():
+        want = OM.decode_line(line)
+        try:
+            r = J.lp.parse_line(line)
+            got = (r.addr, r.mnemonic, list(r.operands)) if isinstance(r, J.gd.Instruction) else repr(r)
+        except Exception as e:  # noqa
+            got = repr(e)
+        obs.append(simple_ob(f"parse_line:limit-line:{tag}:POST", LP + ".parse_line", "POST",
+                             f"line at a limit of the grammar ({tag}) decodes to {str(want)[:120]}", got == want, ["C08", "C16", "C10", "C09"],
+                             detail=repr(got)[:300], witness=f"{line[:80]!r}... -> {str(got)[:120]}"))
     # normal form of every memory text (as the operand of an lea line, through parse_line)
     for m in mems:
         line = f"  401000:\t48 8d 04 00          \tlea    {m},%rsi"
